@@ -711,6 +711,65 @@ def exhaustive(depth, rng=None, limit=None):
     return hs
 
 
+# ---- coercion boundary table: decimal strings at the range boundaries of the four integer widths and of double ------------
+BOUNDARIES = [0, 1, 9, 10, 2**31 - 1, 2**31, 2**32 - 1, 2**32, 2**53, 2**63 - 1, 2**63, 2**64 - 1, 2**64, 10**19, 10**20 - 1]
+ATOF_HARD = [b"9007199254740993", b"9007199254740993.0000001", b"9007199254740992.9999999", b"1e22", b"1e23", b"8.5e22",
+             b"2.2250738585072014e-308", b"2.2250738585072011e-308", b"1.7976931348623157e308", b"1.7976931348623158e308",
+             b"1.7976931348623159e308", b"4.9406564584124654e-324", b"2.4703282292062327e-324", b"2.4703282292062328e-324",
+             b"0.1", b"0.3", b"123456789012345678", b"18446744073709551615.5", b"9223372036854775807.5", b"4294967295.999",
+             b"-2147483648.9", b"1e19", b"1.8446744073709552e19", b"9.223372036854775807e18", b"+.5", b"-.5e-0", b"1e+", b"1e-",
+             b"0e99999", b"1e-99999", b"00000000000000000000000001", b"0.000000000000000000000000000000001e33",
+             b"+-1", b"-+1", b"- 1", b"--1", b"+ 1", b"-0", b"+0", b"-00", b"0x7fffffff", b"1_000"]
+
+
+def boundary_strings():
+    """decimal numerals n = B-1, B, B+1 for every boundary B, with sign / leading white space / leading zeros / trailing rest"""
+    out = []
+    for b in BOUNDARIES:
+        for d in (-1, 0, 1):
+            n = b + d
+            if n < 0:
+                continue
+            for sign in (b"", b"-", b"+"):
+                for pre in (b"", b" ", b"\t\n\v\f\r ", b"00"):
+                    for suf in (b"", b"x", b".5", b"e2", b" ", b"\x009"):
+                        if pre == b"00":
+                            out.append(sign + pre + str(n).encode() + suf)
+                        else:
+                            out.append(pre + sign + str(n).encode() + suf)
+    return out + ATOF_HARD
+
+
+def boundary_histories():
+    """every boundary string is given to variable 0 while variables 1..5 hold the integer/double alternatives next to it, so
+    that all to*() of the string and the == matrix string x {int, uint, int64, uint64, double} (both directions) are
+    compared: real libc (atoi/strtoul/atoll/strtoull/atof through String) vs the Lean definitions vs the Python reference"""
+    strs = boundary_strings()
+    hs, stats = [], {"strings": len(strs), "strtol_clamp_hi": 0, "strtol_clamp_lo": 0, "strtoul_overflow": 0, "strtoul_negated": 0,
+                     "int_truncated": 0, "uint_truncated": 0, "no_digits": 0, "atof_inexact_integer": 0}
+    for s in strs:
+        m = RE_INT.match(cstr(s))
+        n = int(m.group(2) or b"0")
+        neg = m.group(1) == b"-"
+        stats["no_digits"] += not m.group(2)
+        stats["strtol_clamp_hi"] += (not neg and n > 2**63 - 1)
+        stats["strtol_clamp_lo"] += (neg and n > 2**63)
+        stats["strtoul_overflow"] += n > 2**64 - 1
+        stats["strtoul_negated"] += (neg and 0 < n <= 2**64 - 1)
+        stats["int_truncated"] += wrap_s(32, c_strtol(s)) != c_strtol(s)
+        stats["uint_truncated"] += wrap_u(32, c_strtoul(s)) != c_strtoul(s)
+        stats["atof_inexact_integer"] += (n > 2**53 and int(float(n)) != n)
+    for i in range(0, len(strs), 12):
+        chunk = strs[i:i + 12]
+        m = RE_INT.match(cstr(chunk[0]))
+        n = int(m.group(2) or b"0")
+        sn = -n if m.group(1) == b"-" else n
+        h = [f"new 1 i{wrap_s(32, sn)}", f"new 2 u{wrap_u(32, sn)}", f"new 3 l{max(-2**63, min(2**63 - 1, sn))}",
+             f"new 4 q{min(2**64 - 1, n)}", f"new 5 d{bits_of(float(sn)):016x}"]
+        hs.append(h + [f"new 0 s{hexs(x)}" for x in chunk])
+    return hs, stats
+
+
 def nontrivial(h, out):
     """distinct = distinct (set of leaf kinds, final observation); non-trivial = >= 3 ops and a container somewhere"""
     if len(h) < 3 or not out or out[-1] == "bad-op":
@@ -738,15 +797,21 @@ def histories_for(ctx):
         rng.shuffle(ex3)
         ex3 = ex3[:300000]
     rnd = [gen_history(rng, rng.choice([6, 12, 25, 40])) for _ in range(2500 if quick else 120000)]
+    bnd, bstats = boundary_histories()
+    bstats["histories"] = len(bnd)
+    bstats["lines"] = sum(len(h) for h in bnd)
+    ctx.cov["coercion_boundary_table"] = bstats
     ctx.cov["rule"] = (f"corpus ({ncorpus}) + exhaustive: all op sequences of length <= {depth} over a {len(SMALL_OPS)}-op alphabet "
                        f"(3 variables; sharing, nested access, self-assignment, get of an own element) ({len(ex)} histories) + "
                        f"{len(ex3)} sampled sequences of length {depth + 1} + {len(rnd)} random histories of 6..40 ops over 2..6 variables, "
                        "paths of depth <= 3 chosen among the existing ones, literals from edge tables (integer limits, decimal strings, "
-                       "doubles incl. ±0, ±inf, 2^31, 2^63, subnormal); distinct_nontrivial = distinct (leaf-kind set, final observation) "
+                       "doubles incl. ±0, ±inf, 2^31, 2^63, subnormal) + the coercion boundary table "
+                       f"({bstats['strings']} decimal strings at the range boundaries of int/uint/int64/uint64/double with sign, white space, "
+                       "leading zeros and trailing rest, beside the integer and double alternatives of the same number); distinct_nontrivial = distinct (leaf-kind set, final observation) "
                        "among histories with >= 3 ops that end with a container")
     ctx.cov["exhaustive"] = False
     ctx.cov["exhaustive_scope"] = f"length<={depth} over {len(SMALL_OPS)} ops: {len(ex)} histories"
-    return hs + ex + ex3 + rnd
+    return hs + bnd + ex + ex3 + rnd
 
 
 ASSUMPTIONS = [
